@@ -42,6 +42,9 @@ UNIVERSES = {"U": (scopes.U, scopes.ROOTS), "U2": (U2, R2)}
 STAGES = {
     "quick": [
         dict(name="A", universe="U2", max_db=3, max_roots=2, triples=True, bulk=[1, 2, 3, 10], cut_rows=3, deviations=1),
+        # three sibling roots, two truncated answers in one walk (the answer
+        # to the first request and the answer to the request that completes it)
+        dict(name="F", universe="U2", max_db=3, max_roots=0, triples=True, bulk=[1, 2], cut_rows=1, deviations=2),
     ],
     "thorough": [
         dict(name="A", universe="U", max_db=3, max_roots=2, triples=True, bulk=[1, 2, 4, 7, 25], cut_rows=3, deviations=1),
@@ -49,6 +52,7 @@ STAGES = {
         dict(name="C", universe="U2", max_db=2, max_roots=2, triples=True, bulk=[1, 2, 3, 10], cut_rows=None, deviations=None),
         dict(name="D", universe="U", max_db=4, max_roots=2, triples=False, bulk=[1, 2, 5], cut_rows=1, deviations=1),
         dict(name="E", universe="U2", max_db=3, max_roots=3, triples=False, bulk=[1, 2, 10], cut_rows=2, deviations=1),
+        dict(name="F", universe="U2", max_db=4, max_roots=0, triples=True, bulk=[1, 2, 3], cut_rows=2, deviations=3),
     ],
 }
 
@@ -61,7 +65,7 @@ def root_lists_for(stage):
     from itertools import permutations
 
     menu = UNIVERSES[stage["universe"]][1]
-    lists = scopes.root_lists(stage["max_roots"], menu)
+    lists = scopes.root_lists(stage["max_roots"], menu) if stage["max_roots"] else []
     if stage["triples"] and stage["max_roots"] < 3:
         lists = lists + list(permutations(SIBLING_TRIPLE))
     return lists
